@@ -230,6 +230,30 @@ pub fn contract_packet_roundtrip(len: usize, fill: u8, seed: u32, rr: bool, num:
     assert!(log.n == 0 || (num == 0 && !rr), "warning on reading back a written packet");
 }
 
+/// SAMPLED contract (C06): any byte string is read to a value or an error; for a chunk packet the chunk iterator yields sub-slices of
+/// the payload, terminates, and its ExactSizeIterator length is the number of chunks it really yields (so `collect()` cannot panic)
+#[cfg(not(kani))]
+pub fn contract_read_total(data: Vec<u8>, hint_sel: usize) {
+    let _ = hint_sel;
+    let mut scratch = [0u8; 2048];
+    let mut log = Log::new();
+    if let Ok(Packet::Connected(ConnectedPacket { type_: ConnectedPacketType::Chunks(_, num, payload), .. })) = Packet::read(&mut log, &data, &mut scratch[..]) {
+        let it = ChunksIter::new(payload, num);
+        let mut n = 0usize;
+        let mut walk = it.clone();
+        while let Some(c) = walk.next_warn(&mut log) {
+            n += 1;
+            assert!(n <= payload.len() + 1, "chunk iterator does not terminate");
+            let (p0, p1) = (payload.as_ptr() as usize, payload.as_ptr() as usize + payload.len());
+            let (c0, c1) = (c.data.as_ptr() as usize, c.data.as_ptr() as usize + c.data.len());
+            assert!(c.data.is_empty() || (p0 <= c0 && c1 <= p1), "chunk data outside the payload");
+        }
+        assert!(it.len() == n, "ExactSizeIterator::len of the chunk iterator is not the number of chunks it yields");
+        let all: Vec<_> = it.collect();
+        assert!(all.len() == n);
+    }
+}
+
 pub mod proofs {
     use super::draw;
     use super::draw::harness;
@@ -318,5 +342,23 @@ pub mod proofs {
         let t = draw::bytes::<4>();
         draw::reached();
         contract_packet_roundtrip(len, fill, seed, rr, num, ack, t);
+    });
+
+    #[cfg(not(kani))]
+    harness!(sampled_packet_read_total_v7, unwind = 1, {
+        // a header (flags mostly without control / connless / compression), an announced chunk count, then chunk-shaped or random bytes
+        let mut data = vec![draw::u8() & if draw::usize_le(3) == 0 { 0xff } else { 0x03 }, draw::u8(), draw::usize_le(4) as u8];
+        for _ in 0..4 { data.push(draw::u8()); }
+        for _ in 0..draw::usize_le(5) {
+            let size = draw::usize_le(6);
+            let vital = draw::bool();
+            data.push(((vital as u8) << 6) | ((size >> 4) as u8 & 0x3f));
+            data.push((size & 0xf) as u8 | (draw::u8() & 0xf0));
+            if vital { data.push(draw::u8()); }
+            for _ in 0..(if draw::usize_le(7) == 0 { draw::usize_le(6) } else { size }) { data.push(draw::u8()); }
+        }
+        let hint_sel = draw::usize_le(2);
+        draw::reached();
+        contract_read_total(data, hint_sel);
     });
 }
